@@ -44,8 +44,8 @@ PLAN = {
                   dict(fuzz="FuzzC06", seconds=120)],
     ),
     "C09": dict(
-        quick=[dict(test="TestC09Rapid", checks=30000), *shards("TestC09Trunc", 4)],
-        thorough=[*shards("TestC09Rapid", 8, checks=200000), *shards("TestC09Trunc", 16),
+        quick=[dict(test="TestC09Rapid", checks=30000), *shards("TestC09Trunc", 4), dict(test="TestC09Bytes")],
+        thorough=[*shards("TestC09Rapid", 8, checks=200000), *shards("TestC09Trunc", 16), dict(test="TestC09Bytes"),
                   dict(fuzz="FuzzC09", seconds=180)],
     ),
 }
